@@ -106,6 +106,27 @@ def build_harness(release=False):
 # theorem `<name>` must exist to count as discharged).
 # --------------------------------------------------------------------------------------------
 def lean_obligations(prop):
+    """Obligations of `prop`: Props/<prop>.lean plus, when present, the companion Props/<prop>s.lean
+    (the static half: table theorems over source-derived tables)."""
+    main = _lean_obligations_one(prop)
+    if os.path.exists(os.path.join(LEAN, "GcArena", "Props", f"{prop}s.lean")):
+        comp = _lean_obligations_one(prop + "s")
+        if not os.path.exists(os.path.join(LEAN, "GcArena", "Props", f"{prop}.lean")):
+            return comp
+        for k in ("obligations", "discharged"):
+            main[k] += comp[k]
+        for k in ("theorems", "open", "forbidden"):
+            main[k] = main[k] + [x for x in comp[k] if x not in main[k]]
+        main["pending_statements"] = main.get("pending_statements", []) + comp.get("pending_statements", [])
+        main["build_ok"] = main["build_ok"] and comp["build_ok"]
+        main["build_log"] += "\n" + comp["build_log"]
+        main["module"] += " " + comp["module"]
+        if main["forbidden"]:
+            main["discharged"] = 0
+    return main
+
+
+def _lean_obligations_one(prop):
     path = os.path.join(LEAN, "GcArena", "Props", f"{prop}.lean")
     res = dict(module=f"GcArena.Props.{prop}", obligations=0, discharged=0, theorems=[], open=[],
                build_ok=False, build_log="", forbidden=[])
